@@ -247,6 +247,178 @@ fn parse(p: &str, how: &str, data: &[u8], cap: usize, sched: &[usize], intr: usi
     (items, vk, capped)
 }
 
+// ------------------------------------------------------------ other ways to obtain the same records
+// how = "copies"         every record is handed on as a copy: clone(), serde_json round trip, clone_from() into a
+//                        used record; Default/new() records are logged as `fresh_empty`
+//       "read_then_iter" one read() call, then the records() iterator on the same reader (mixing the two APIs)
+//       "adapters"       first item through nth(0), the rest through by_ref().step_by(1); count() and last() of two
+//                        further passes are logged as `count` / `last`
+//       "from_file"      Reader::from_file / from_file_with_capacity / EitherRecords::from_file on a real file
+// All of them must yield the items of the plain iteration.
+thread_local! { static TMPBASE: std::cell::RefCell<String> = std::cell::RefCell::new(String::new()); }
+fn tmp_path(tag: &str) -> String {
+    TMPBASE.with(|t| format!("{}.{}.tmp", t.borrow(), tag))
+}
+
+macro_rules! alt_reader {
+    ($m:ident, $item:expr, $errk:expr, $how:expr, $data:expr, $cap:expr, $sched:expr, $intr:expr, $limit:expr) => {{
+        let mk = || $m::Reader::with_capacity($cap.max(1), Intr::new(SchedReader::new($data.to_vec(), $sched.to_vec()), $intr));
+        let mut items: Vec<Value> = vec![];
+        let mut extra = json!({});
+        let mut capped = false;
+        match $how {
+            "copies" => {
+                let mut dirty = $m::Record::new();
+                let fresh = $m::Record::new();
+                let dflt = $m::Record::default();
+                extra = json!({"fresh_empty": if fresh.is_empty() && dflt.is_empty() && fresh == dflt {1} else {0}});
+                for (n, res) in mk().records().enumerate() {
+                    if items.len() >= $limit {
+                        capped = true;
+                        break;
+                    }
+                    match res {
+                        Ok(r) => {
+                            let c = match n % 3 {
+                                0 => r.clone(),
+                                1 => serde_json::from_str(&serde_json::to_string(&r).unwrap()).unwrap(),
+                                _ => {
+                                    dirty.clone_from(&r);
+                                    dirty.clone()
+                                }
+                            };
+                            items.push($item(&c));
+                            dirty = r; // the next clone_from target holds an older record
+                        }
+                        Err(e) => items.push(item_err($errk(&e))),
+                    }
+                }
+            }
+            "read_then_iter" => {
+                let mut rd = mk();
+                let mut r = $m::Record::new();
+                let mut go_on = true;
+                match rd.read(&mut r) {
+                    Ok(()) => {
+                        if r.is_empty() { go_on = false } else { items.push($item(&r)) }
+                    }
+                    Err(e) => items.push(item_err($errk(&e))),
+                }
+                if go_on {
+                    for res in rd.records() {
+                        if items.len() >= $limit {
+                            capped = true;
+                            break;
+                        }
+                        match res {
+                            Ok(r) => items.push($item(&r)),
+                            Err(e) => items.push(item_err($errk(&e))),
+                        }
+                    }
+                }
+            }
+            "adapters" => {
+                let conv = |res: Result<$m::Record, _>| match res {
+                    Ok(r) => $item(&r),
+                    Err(e) => item_err($errk(&e)),
+                };
+                let mut it = mk().records();
+                if let Some(first) = it.nth(0) {
+                    items.push(conv(first));
+                    for res in it.by_ref().step_by(1).take($limit) {
+                        items.push(conv(res));
+                    }
+                }
+                let count = mk().records().take($limit).count();
+                let last: Vec<Value> = mk().records().take($limit).last().map(|x| vec![conv(x)]).unwrap_or_default();
+                extra = json!({"count": count, "last": last});
+            }
+            _ => {
+                let path = tmp_path("rd");
+                std::fs::write(&path, $data).unwrap();
+                let rd = $m::Reader::from_file(&path).unwrap();
+                for res in rd.records() {
+                    if items.len() >= $limit {
+                        capped = true;
+                        break;
+                    }
+                    match res {
+                        Ok(r) => items.push($item(&r)),
+                        Err(e) => items.push(item_err($errk(&e))),
+                    }
+                }
+                let _ = std::fs::remove_file(&path);
+            }
+        }
+        (items, capped, extra)
+    }};
+}
+
+fn parse_alt(p: &str, how: &str, data: &[u8], cap: usize, sched: &[usize], intr: usize) -> (Vec<Value>, Vec<Value>, bool, Value) {
+    let limit = data.len() + 3;
+    let fa_item = |r: &fasta::Record| item_rec(r.id(), r.desc(), r.seq(), &[], r.check().is_ok());
+    let fq_item = |r: &fastq::Record| item_rec(r.id(), r.desc(), r.seq(), r.qual(), r.check().is_ok());
+    match p {
+        "fasta" => {
+            if how == "from_file" && cap != 8192 {
+                // the capacity variant of the file constructor
+                let path = tmp_path("rdc");
+                std::fs::write(&path, data).unwrap();
+                let mut items = vec![];
+                for res in fasta::Reader::from_file_with_capacity(cap.max(1), &path).unwrap().records().take(limit) {
+                    match res {
+                        Ok(r) => items.push(fa_item(&r)),
+                        Err(e) => items.push(item_err(io_kind(&e))),
+                    }
+                }
+                let _ = std::fs::remove_file(&path);
+                return (items, vec![], false, json!({}));
+            }
+            let (i, c, x) = alt_reader!(fasta, fa_item, io_kind, how, data, cap, sched, intr, limit);
+            (i, vec![], c, x)
+        }
+        "fastq" => {
+            let (i, c, x) = alt_reader!(fastq, fq_item, fq_kind, how, data, cap, sched, intr, limit);
+            (i, vec![], c, x)
+        }
+        _ => {
+            // either: EitherRecords::from_file + get_kind_file
+            let path = tmp_path("rdx");
+            std::fs::write(&path, data).unwrap();
+            let kf = match fastx::get_kind_file(&path) {
+                Ok(fastx::Kind::FASTA) => "fasta",
+                Ok(fastx::Kind::FASTQ) => "fastq",
+                Err(e) if e.kind() == std::io::ErrorKind::UnexpectedEof => "eof",
+                Err(e) if e.kind() == std::io::ErrorKind::InvalidData => "invalid",
+                Err(_) => "io",
+            };
+            let mut items = vec![];
+            let mut vk = vec![];
+            for res in fastx::EitherRecords::from_file(&path).unwrap().take(limit) {
+                match res {
+                    Ok(r) => {
+                        let q: Vec<u8> = FxRecord::qual(&r).map(|q| q.to_vec()).unwrap_or_default();
+                        vk.push(json!(match FxRecord::kind(&r) {
+                            fastx::Kind::FASTA => "fasta",
+                            fastx::Kind::FASTQ => "fastq",
+                        }));
+                        items.push(item_rec(FxRecord::id(&r), FxRecord::desc(&r), FxRecord::seq(&r), &q, FxRecord::check(&r).is_ok()));
+                    }
+                    Err(e) => {
+                        vk.push(json!("err"));
+                        items.push(item_err(match &e {
+                            fastx::Error::IO(e) => io_kind(e),
+                            fastx::Error::FASTQ(e) => fq_kind(e),
+                        }));
+                    }
+                }
+            }
+            let _ = std::fs::remove_file(&path);
+            (items, vk, false, json!({"kind_file": kf}))
+        }
+    }
+}
+
 struct Lay {
     lay: i64,
     wrap: i64,
@@ -260,8 +432,19 @@ fn parse_event(log: &mut Log, p: &str, how: &str, data: &[u8], cap: usize, sched
     let args = json!({"p": p, "how": how, "b": bytes(data), "cap": cap, "sched": usizes(sched), "intr": intr,
                       "lay": lay.lay, "wrap": lay.wrap, "crlf": lay.crlf, "cut": lay.cut});
     log.call("parse", args, || {
-        let (items, vk, capped) = parse(p, how, data, cap, sched, intr);
-        json!({"items": items, "vk": vk, "capped": if capped {1} else {0}})
+        if how == "iter" || how == "read" {
+            let (items, vk, capped) = parse(p, how, data, cap, sched, intr);
+            json!({"items": items, "vk": vk, "capped": if capped {1} else {0}})
+        } else {
+            let (items, vk, capped, extra) = parse_alt(p, how, data, cap, sched, intr);
+            let mut out = json!({"items": items, "vk": vk, "capped": if capped {1} else {0}});
+            if let (Value::Object(o), Value::Object(x)) = (&mut out, extra) {
+                for (k, v) in x {
+                    o.insert(k, v);
+                }
+            }
+            out
+        }
     })
 }
 
@@ -446,44 +629,84 @@ impl std::io::Write for ShortSink {
 }
 
 /// wcap = 0: Writer::new (8 KiB BufWriter), else Writer::with_capacity(wcap); sink_max = 0: unlimited writes.
-fn real_write(kind: &str, recs: &[Rec], wrap: usize, via_record: bool, wcap: usize, sink_max: usize, intr: usize) -> Vec<u8> {
+/// ctor: 0 = Writer::new / with_capacity(wcap), 1 = from_bufwriter, 2 = to_file + explicit flush,
+///       3 = to_file_with_capacity, dropped without flush (BufWriter flushes on drop)
+fn real_write(kind: &str, recs: &[Rec], wrap: usize, via_record: bool, wcap: usize, sink_max: usize, intr: usize, ctor: usize) -> Vec<u8> {
     let mut sink = ShortSink { data: vec![], max: if sink_max == 0 { usize::MAX } else { sink_max },
                                pat: INTR_PATTERNS[intr], i: 0 };
+    macro_rules! put {
+        ($w:expr, fasta) => {
+            for r in recs {
+                if via_record {
+                    let rec = fasta::Record::with_attrs(s(&r.id), r.desc.as_deref().map(s), &r.seq);
+                    $w.write_record(&rec).unwrap();
+                } else {
+                    $w.write(s(&r.id), r.desc.as_deref().map(s), &r.seq).unwrap();
+                }
+            }
+        };
+        ($w:expr, fastq) => {
+            for r in recs {
+                if via_record {
+                    let rec = fastq::Record::with_attrs(s(&r.id), r.desc.as_deref().map(s), &r.seq, &r.qual);
+                    $w.write_record(&rec).unwrap();
+                } else {
+                    $w.write(s(&r.id), r.desc.as_deref().map(s), &r.seq, &r.qual).unwrap();
+                }
+            }
+        };
+    }
+    if ctor >= 2 {
+        let path = tmp_path("wr");
+        if kind == "fasta" {
+            let mut w = if ctor == 2 { fasta::Writer::to_file(&path).unwrap() } else {
+                fasta::Writer::to_file_with_capacity(wcap.max(1), &path).unwrap()
+            };
+            if wrap > 0 {
+                w.set_linewrap(Some(wrap));
+            }
+            put!(w, fasta);
+            if ctor == 2 {
+                w.flush().unwrap();
+            }
+        } else {
+            let mut w = if ctor == 2 { fastq::Writer::to_file(&path).unwrap() } else {
+                fastq::Writer::to_file_with_capacity(wcap.max(1), &path).unwrap()
+            };
+            put!(w, fastq);
+            if ctor == 2 {
+                w.flush().unwrap();
+            }
+        }
+        let out = std::fs::read(&path).unwrap();
+        let _ = std::fs::remove_file(&path);
+        return out;
+    }
     if kind == "fasta" {
-        let mut w = if wcap > 0 { fasta::Writer::with_capacity(wcap, &mut sink) } else { fasta::Writer::new(&mut sink) };
+        let mut w = if ctor == 1 {
+            fasta::Writer::from_bufwriter(std::io::BufWriter::with_capacity(wcap.max(1), &mut sink))
+        } else if wcap > 0 { fasta::Writer::with_capacity(wcap, &mut sink) } else { fasta::Writer::new(&mut sink) };
         if wrap > 0 {
             w.set_linewrap(Some(wrap));
         }
-        for r in recs {
-            if via_record {
-                let rec = fasta::Record::with_attrs(s(&r.id), r.desc.as_deref().map(s), &r.seq);
-                w.write_record(&rec).unwrap();
-            } else {
-                w.write(s(&r.id), r.desc.as_deref().map(s), &r.seq).unwrap();
-            }
-        }
+        put!(w, fasta);
         w.flush().unwrap();
     } else {
-        let mut w = if wcap > 0 { fastq::Writer::with_capacity(wcap, &mut sink) } else { fastq::Writer::new(&mut sink) };
-        for r in recs {
-            if via_record {
-                let rec = fastq::Record::with_attrs(s(&r.id), r.desc.as_deref().map(s), &r.seq, &r.qual);
-                w.write_record(&rec).unwrap();
-            } else {
-                w.write(s(&r.id), r.desc.as_deref().map(s), &r.seq, &r.qual).unwrap();
-            }
-        }
+        let mut w = if ctor == 1 {
+            fastq::Writer::from_bufwriter(std::io::BufWriter::with_capacity(wcap.max(1), &mut sink))
+        } else if wcap > 0 { fastq::Writer::with_capacity(wcap, &mut sink) } else { fastq::Writer::new(&mut sink) };
+        put!(w, fastq);
         w.flush().unwrap();
     }
     sink.data
 }
 
-fn write_event(log: &mut Log, kind: &str, recs: &[Rec], wrap: usize, via_record: bool, wcap: usize, sink: usize) -> Vec<u8> {
+fn write_event(log: &mut Log, kind: &str, recs: &[Rec], wrap: usize, via_record: bool, wcap: usize, sink: usize, ctor: usize) -> Vec<u8> {
     let intr = take_intr(log, false, true);
     let mut written: Vec<u8> = vec![];
-    let args = json!({"wrap": wrap, "via_record": if via_record {1} else {0}, "wcap": wcap, "sink": sink, "intr": intr});
+    let args = json!({"wrap": wrap, "via_record": if via_record {1} else {0}, "wcap": wcap, "sink": sink, "intr": intr, "ctor": ctor});
     log.call("write", args, || {
-        written = real_write(kind, recs, wrap, via_record, wcap, sink, intr);
+        written = real_write(kind, recs, wrap, via_record, wcap, sink, intr, ctor);
         json!({"b": bytes(&written)})
     });
     written
@@ -666,6 +889,7 @@ fn raw_cfg(cls: &str) -> Value {
 }
 
 pub fn drive(log: &mut Log) {
+    TMPBASE.with(|t| *t.borrow_mut() = log.opts.out.clone());
     let seed = log.opts.seed;
     let thorough = log.opts.thorough();
     let mut case = 0u64;
@@ -836,32 +1060,42 @@ pub fn drive(log: &mut Log) {
         let w0 = if kind == "fasta" { *rng.pick(&wraps) } else { 0 };
         // (lay, wrap, crlf, writer capacity (0 = Writer::new), sink: max bytes accepted per write() (0 = all))
         let cap0 = if rng.coin() { 0 } else if kind == "fasta" { 7 } else { 5 };
-        let mut streams: Vec<(i64, usize, bool, usize, usize)> = vec![(1, w0, false, cap0, 0)];
+        let mut streams: Vec<(i64, usize, bool, usize, usize, usize)> = vec![(1, w0, false, cap0, 0, 0)];
         {
             // the same records through a small BufWriter into a sink that takes only part of a write() call
             let wcap = *rng.pick(&[1usize, 5, 16, 64]);
             let sink = *rng.pick(&[1usize, 7, 4096]);
             let wrap = if kind == "fasta" { *rng.pick(&wraps) } else { 0 };
-            streams.push((1, wrap, false, wcap, sink));
+            streams.push((1, wrap, false, wcap, sink, i as usize % 2));
+            if i % 2 == 1 {
+                log.oblige("writer_from_bufwriter");
+            }
             let piece = |r: &Rec| if kind == "fasta" && wrap > 0 { r.seq.len().min(wrap) } else { r.seq.len() };
             if recs.iter().any(|r| piece(r) >= wcap && piece(r) > sink) {
                 log.oblige("writer_sink_short_writes_beyond_capacity");
             }
         }
         if kind == "fasta" && !small {
-            streams.push((1, *rng.pick(&wraps), false, 0, 0));
+            streams.push((1, *rng.pick(&wraps), false, 0, 0, 0));
+        }
+        {
+            // writers on real files: to_file + flush, to_file_with_capacity dropped without flush
+            let wrap = if kind == "fasta" { *rng.pick(&wraps) } else { 0 };
+            let ctor = 2 + (i as usize / 2) % 2;
+            streams.push((1, wrap, false, 16, 0, ctor));
+            log.oblige(if ctor == 2 { "writer_to_file_flush" } else { "writer_to_file_dropped_unflushed" });
         }
         let nlay = if small { 2 } else { 3 };
         for v in 0..nlay {
             let wrap = if kind == "fastq" && !wrapped_fq { 0 } else { *rng.pick(&wraps) };
-            streams.push((2, wrap, (v + i as usize) % 2 == 1, 0, 0));
+            streams.push((2, wrap, (v + i as usize) % 2 == 1, 0, 0, 0));
         }
         let parsers: [&str; 2] = [kind, "either"];
-        for (sidx, &(layk, wrap, crlf, wcap, sink)) in streams.iter().enumerate() {
+        for (sidx, &(layk, wrap, crlf, wcap, sink, ctor)) in streams.iter().enumerate() {
             let b: Vec<u8> = if layk == 1 {
                 let via_record = rng.coin();
                 set_intr(sidx + i as usize);
-                let written = write_event(log, kind, &recs, wrap, via_record, wcap, sink);
+                let written = write_event(log, kind, &recs, wrap, via_record, wcap, sink, ctor);
                 if i % 3 == 0 && sidx == 0 {
                     log.call("display", json!({}), || json!({"b": bytes(&display(kind, &recs))}));
                 }
@@ -904,6 +1138,27 @@ pub fn drive(log: &mut Log) {
                 if p == "either" {
                     log.oblige(if kind == "fasta" { "either_fasta" } else { "either_fastq" });
                 }
+            }
+            // the same stream through the other ways to obtain records (copies, mixed APIs, adapters, files)
+            if sidx == 0 {
+                for (hi, how) in ["copies", "read_then_iter", "adapters", "from_file"].iter().enumerate() {
+                    let cap = CAPS[(i as usize + hi) % CAPS.len()];
+                    let sched = gen_sched(&mut rng, &b, i + hi as u64, log);
+                    let lay = Lay { lay: layk, wrap: wrap as i64, crlf: crlf as i64, cut: -1 };
+                    set_intr(hi + i as usize);
+                    let r = parse_event(log, kind, how, &b, cap, &sched, &lay);
+                    note_items(log, &r);
+                    log.oblige(match *how {
+                        "copies" => "records_as_copies_clone_serde_clone_from",
+                        "read_then_iter" => "read_then_records_on_one_reader",
+                        "adapters" => "records_through_nth_step_by_count_last",
+                        _ => "reader_from_file",
+                    });
+                }
+                let lay = Lay { lay: layk, wrap: wrap as i64, crlf: crlf as i64, cut: -1 };
+                let r = parse_event(log, "either", "from_file", &b, 8192, &[], &lay);
+                note_items(log, &r);
+                log.oblige("either_from_file_and_get_kind_file");
             }
             // truncation of this stream
             if sidx > 0 && layk == 1 {
@@ -1005,7 +1260,7 @@ pub fn drive(log: &mut Log) {
         let sink = [1usize, 7, 4096][(i as usize / 2) % 3];
         let wrap = if kind == "fasta" && i % 4 == 1 { 9000 } else { 0 };
         set_intr(i as usize);
-        let written = write_event(log, kind, &recs, wrap, i % 3 == 0, 0, sink);
+        let written = write_event(log, kind, &recs, wrap, i % 3 == 0, 0, sink, 0);
         log.oblige("writer_default_capacity_exceeded_short_sink");
         let lay = Lay { lay: 1, wrap: wrap as i64, crlf: 0, cut: -1 };
         set_intr(i as usize + 1);
